@@ -134,6 +134,8 @@ def k2(shape):
         eng.assume(index < n)
     branch, root = m.branch_and_root(leaves, index)
     idx = int(index)             # decided by the list indexing inside branch_and_root
+    eng.prove(len(leaves) == n, 'K2: branch_and_root modified the list of hashes it was given',
+              {'signature': 'K2-input-mutated'})
     rb, rtsc, rroot = ref_branch(leaves, idx)
     eng.prove(len(branch) == ceil_log2(n), 'K2: branch length != ceil(log2 n)', {'signature': 'K2-length'})
     eng.prove(deep_eq(root, rroot), 'K2: root != merkle root by definition', {'signature': 'K2-root'})
